@@ -12,6 +12,7 @@ import z3
 from pyvc import smt, views
 from pyvc.smt import I
 from pyvc.values import *          # noqa
+from pyvc.values import eqv, veq   # noqa
 from pyvc.engine import IntDictV, CellListV
 from pyvc.contract import *        # noqa
 from pyvc.views import View, AbsView, AX
@@ -592,7 +593,7 @@ def _dk_hooks():
 def _dk_get_post(S, o):
     k = S.old.item
     if o.kind == 'return':
-        return [('C11:a-stored-example-is-served-from-disk', z3.And(DK_HAS(k), veq(o.value, ObjV(DK_VAL(k))) if isinstance(o.value, ObjV) else smt.F))]
+        return [('C11:a-stored-example-is-served-from-disk', z3.And(DK_HAS(k), eqv(o.value, ObjV(DK_VAL(k))) if isinstance(o.value, ObjV) else smt.F))]
     return [('C11:KeyError-exactly-for-an-absent-position', z3.And(z3.Not(DK_HAS(k)), exc_is(o.exc, S.eng.hier, 'KeyError')))]
 
 
